@@ -54,7 +54,27 @@ def rnum(c, style=0):
         s = repr(float(c))
         if F(s) == c:
             return s
+    if c.denominator > 1000 and set(_prime_factors(c.denominator)) <= {2, 5}:
+        # a long terminating decimal stays a decimal literal in every style
+        digits = 0
+        d = c.denominator
+        while (10 ** digits) % d:
+            digits += 1
+        return ("-" if c < 0 else "") + f"{abs(c.numerator) * 10 ** digits // d:0{digits + 1}d}"[:-digits] + "." + \
+            f"{abs(c.numerator) * 10 ** digits // d:0{digits + 1}d}"[-digits:]
     return f"{c.numerator}/{c.denominator}"
+
+
+def _prime_factors(n):
+    out, p = [], 2
+    while p * p <= n:
+        while n % p == 0:
+            out.append(p)
+            n //= p
+        p += 1
+    if n > 1:
+        out.append(n)
+    return out
 
 
 def rmono(m):
